@@ -923,6 +923,86 @@ def r5(k: Kit) -> None:
                       k.loc(fi, sn))
 
 
+def r6(k: Kit) -> None:
+    """SUCCESS only while a request of ours is outstanding."""
+    rep = k.rep
+    idx = k.idx
+    rep.rule('C06.R6', 'the client acts on USERAUTH_SUCCESS only past a test '
+             'of a flag of the current auth object that is false when the '
+             'object is created and set true nowhere but in '
+             'ClientAuth.send_request, after the request went out: an '
+             'installed auth handler alone (try_next_auth installs it before '
+             'its task has sent anything) is not an outstanding request')
+    fi = k.func(CONN + '_process_userauth_success')
+    g = k.cfg(fi)
+    ca = idx.cls('auth.ClientAuth')
+    # candidate flags: fields initialised False in ClientAuth.__init__
+    init = ca.methods.get('__init__')
+    flags = set()
+    if init is not None:
+        for n, v in k.stores_to(init, None) if False else []:
+            pass
+        for x in ast.walk(init.node):
+            if isinstance(x, ast.Assign) and isinstance(x.value, ast.Constant) \
+                    and x.value.value is False:
+                for t in x.targets:
+                    d = dotted(t)
+                    if d and d.startswith('self.'):
+                        flags.add(d[5:])
+    good = None
+    for fl in sorted(flags):
+        writers = set()
+        for f in idx.iter_funcs(['auth', 'connection']):
+            for x in ast.walk(f.node):
+                if isinstance(x, ast.Assign) and any(
+                        (dotted(t) or '').endswith('.' + fl)
+                        for t in x.targets) and \
+                        isinstance(x.value, ast.Constant) and \
+                        x.value.value is True:
+                    writers.add(f.qual)
+        if writers != {'auth.ClientAuth.send_request'}:
+            continue
+        sr = k.func('auth.ClientAuth.send_request')
+        gs = k.cfg(sr)
+        sends = [n.id for n, c in k.calls_named(sr, 'send_userauth_request')]
+        sets = [n.id for n, v in k.stores_to(sr, 'self.' + fl)]
+        after = bool(sends) and all(
+            gs.path(gs.entry, s_, blocked_nodes=sends) is None for s_ in sets)
+        if after:
+            good = fl
+    props = {good} if good else set()
+    if good:
+        # a read-only property returning the flag counts as the flag
+        for f in ca.methods.values():
+            rets = [x for x in ast.walk(f.node) if isinstance(x, ast.Return)]
+            if rets and all(dotted(r.value) == 'self.' + good for r in rets):
+                props.add(f.name)
+
+    def val(x):
+        a = x.ast
+        if x.kind != 'atom':
+            return None
+        for sub in ast.walk(a):
+            if isinstance(sub, ast.Attribute) and sub.attr in props:
+                return True
+        return None
+    stores = [n for n, v in k.stores_to(fi, 'self._auth_complete')
+              if isinstance(v, ast.Constant) and v.value is True]
+    rep.floor('C06.R6', 'client success acceptance sites', len(stores), 1)
+    for n in stores:
+        w = g.guarded_by(n.id, val) if props else [0]
+        rep.check(w is None, 'C06.R6', key(fi, 'request outstanding'),
+                  f'accepted only if `{good}` of the auth object is set '
+                  '(a request was sent)',
+                  'USERAUTH_SUCCESS is accepted whenever an auth handler is '
+                  'installed, also before that handler has sent its request '
+                  '(SERVICE_ACCEPT directly followed by SUCCESS): connect() '
+                  'returns an "authenticated" connection although the client '
+                  'never sent a USERAUTH_REQUEST', k.loc(fi, n),
+                  g.describe_path(w) if isinstance(w, list) and len(w) > 1
+                  else None)
+
+
 def run(idx, rep, tier):
     k = Kit(idx, rep)
     rep.assumptions += NOT_DECIDED
@@ -933,3 +1013,4 @@ def run(idx, rep, tier):
     r3(k)
     r4(k)
     r5(k)
+    r6(k)
